@@ -77,36 +77,38 @@ Definition undecodable (m : msg) : bool := (m_data m <? 0)%Z.
 Fixpoint close_all (k : kst) (rs : list ref) : kst :=
   match rs with [] => k | r :: t => close_all (k_close k r) t end.
 
-(* one member of a set: everything queued, then the closure if no sender reference is left *)
+(* one member of a set: everything queued, then the closure if no sender reference is left.  select hands out RAW messages;
+   they are decoded by the program afterwards.  What an undecodable message carried is therefore still referenced (by the raw
+   message) while the set is being served: it is collected in `later` and released once every member has been served. *)
 Fixpoint drain (fuel : nat) (k : kst) (hs : list (hid * aobj)) (n : hid) (i c : nat)
-  : kst * list (hid * aobj) * hid * list sev * bool :=
+  : kst * list (hid * aobj) * hid * list sev * bool * list ref :=
   match fuel with
-  | O => (k, hs, n, [], false)
+  | O => (k, hs, n, [], false, [])
   | S f =>
       match k_recv k c with
       | KMsg m k' =>
           if undecodable m then
-            let '(k2, hs2, n2, evs, closed) := drain f (close_all k' (m_rights m)) hs n i c in
-            (k2, hs2, n2, SBad i :: evs, closed)
+            let '(k2, hs2, n2, evs, closed, later) := drain f k' hs n i c in
+            (k2, hs2, n2, SBad i :: evs, closed, m_rights m ++ later)
           else
           let '(hs', n', out) := a_install hs n (m_rights m) in
-          let '(k2, hs2, n2, evs, closed) := drain f k' hs' n' i c in
-          (k2, hs2, n2, SMsg i (m_data m) out :: evs, closed)
-      | KEmpty => (k, hs, n, [], false)
-      | KClosed => (k_close k (RR c), hs, n, [SClosed i], true)
+          let '(k2, hs2, n2, evs, closed, later) := drain f k' hs' n' i c in
+          (k2, hs2, n2, SMsg i (m_data m) out :: evs, closed, later)
+      | KEmpty => (k, hs, n, [], false, [])
+      | KClosed => (k_close k (RR c), hs, n, [SClosed i], true, [])
       end
   end.
 
 Fixpoint select_all (k : kst) (hs : list (hid * aobj)) (n : hid) (i : nat) (ms : list (option nat))
-  : kst * list (hid * aobj) * hid * list sev * list (option nat) :=
+  : kst * list (hid * aobj) * hid * list sev * list (option nat) * list ref :=
   match ms with
-  | [] => (k, hs, n, [], [])
+  | [] => (k, hs, n, [], [], [])
   | None :: r =>
-      let '(k2, hs2, n2, evs, ms2) := select_all k hs n (S i) r in (k2, hs2, n2, evs, None :: ms2)
+      let '(k2, hs2, n2, evs, ms2, later) := select_all k hs n (S i) r in (k2, hs2, n2, evs, None :: ms2, later)
   | Some c :: r =>
-      let '(k1, hs1, n1, ev1, closed) := drain (S (length (q (get_chan k c)))) k hs n i c in
-      let '(k2, hs2, n2, evs, ms2) := select_all k1 hs1 n1 (S i) r in
-      (k2, hs2, n2, ev1 ++ evs, (if closed then None else Some c) :: ms2)
+      let '(k1, hs1, n1, ev1, closed, l1) := drain (S (length (q (get_chan k c)))) k hs n i c in
+      let '(k2, hs2, n2, evs, ms2, l2) := select_all k1 hs1 n1 (S i) r in
+      (k2, hs2, n2, ev1 ++ evs, (if closed then None else Some c) :: ms2, l1 ++ l2)
   end.
 
 Fixpoint close_members (k : kst) (ms : list (option nat)) : kst :=
@@ -186,8 +188,8 @@ Definition a_step (s : ast) (o : aop) : ast * aout :=
   | ASelectAll sh =>
       match lookup (ah s) sh with
       | Some (OSet ms) =>
-          let '(k', hs', n', evs, ms') := select_all (ak s) (ah s) (anext s) 0 ms in
-          (keep k' (update hs' sh (OSet ms')) n', QSelect evs)
+          let '(k', hs', n', evs, ms', later) := select_all (ak s) (ah s) (anext s) 0 ms in
+          (keep (close_all k' later) (update hs' sh (OSet ms')) n', QSelect evs)
       | _ => (s, QBad)
       end
   | AServer =>
